@@ -64,7 +64,7 @@ Step ==
      IN /\ regs' = NextRegs(e, regs)
         /\ nbad' = IF ok THEN nbad ELSE nbad + 1
         /\ (~ok) => PrintT(<<"REJECT", l>>)
-        /\ Tally(LabelsOf(e))
+        /\ Tally(LabelsOf(e, regs))
   /\ l' = l + 1
 
 Spec == Init /\ [][Step]_<<l, regs, nbad>>
